@@ -72,23 +72,25 @@ def write_scenarios(path, blocks):
 
 
 def _chunks(trace, size):
-    """Split a trace into files of about `size` lines, each starting with the reset in force."""
-    out, cur, reset, n = [], [], None, 0
-    base = 0          # line number (1-based) in the original file of cur[0] (after the injected reset)
-    metas = []
+    """Split a trace into files of about `size` lines.  A chunk that starts inside a reset-delimited
+    trace begins with that trace's reset record AND the "bfd" records logged since (the state the
+    trace specification carries from line to line: router configuration, last BFD state per link)."""
+    out, metas = [], []
     with open(trace) as f:
         lines = f.read().splitlines()
+    reset, bfd = None, []
     i = 0
     while i < len(lines):
         cur = []
-        inj = 0
         if reset is not None and '"ev":"reset"' not in lines[i]:
-            cur.append(reset)
-            inj = 1
+            cur = [reset] + list(bfd)
+        inj = len(cur)
         start = i
         while i < len(lines) and len(cur) < size:
             if '"ev":"reset"' in lines[i]:
-                reset = lines[i]
+                reset, bfd = lines[i], []
+            elif '"ev":"bfd"' in lines[i]:
+                bfd.append(lines[i])
             cur.append(lines[i])
             i += 1
         p = "%s.%d" % (trace, len(out))
@@ -120,13 +122,14 @@ def validate(c, trace, pid, chunk=12000, also=("panic",)):
             if not (key.startswith(pid + ":") or key in also):
                 foreign[key] = foreign.get(key, 0) + 1
                 continue
-            # replay slice: the reset in force + the offending line
+            # replay slice: the reset in force, the BFD states logged since, the offending line
             j = orig - 1
             while j > 0 and '"ev":"reset"' not in lines[j]:
                 j -= 1
+            keep = [lines[j]] + [x for x in lines[j + 1:orig - 1] if '"ev":"bfd"' in x] + [lines[orig - 1]]
             rp = os.path.join(c.scratch, "replay-%d.ndjson" % orig)
             with open(rp, "w") as f:
-                f.write(lines[j] + "\n" + lines[orig - 1] + "\n")
+                f.write("\n".join(keep) + "\n")
             c.report(key, "trace line %d: %s" % (orig, lines[orig - 1][:400]), rp)
     if drift:
         c.notes.append("MODEL-DRIFT (not a verdict): %s" % json.dumps(drift, sort_keys=True))
